@@ -7,7 +7,7 @@ every per-address outcome, the lookup outcome and the TLS handshake outcome are 
 import os, json, random, time, ipaddress
 import z3
 from vlib import core, mir
-from mirsym import parse_mir, Exec, Ref, LCell, Cell, Enum, Struct, Tuple, Abort, Panic, Unknown, UNIT, Opaque, ClosureVal
+from mirsym import parse_mir, Exec, Ref, LCell, Cell, Enum, Struct, Tuple, Abort, Panic, Unknown, UNIT, Opaque, ClosureVal, CoroutineVal
 import models, srvmodels
 from models import MODELS, parse_layouts, ContextObj, WakerObj, DequeObj, VecObj, IterObj, IoErr, call_closure, target, BoxObj
 from explore import explore_levels, boundary, Acc, explore
@@ -21,15 +21,25 @@ class StrObj:
 def _str(v):
     while isinstance(v, Ref): v = v.lv.get()
     if isinstance(v, StrObj): return v.s
-    if isinstance(v, Opaque) and v.what.startswith('"'): return 'literal ' + v.what      # a string literal in the code under analysis
+    if isinstance(v, Opaque) and v.what.startswith('"'): return v.what.strip('"')      # a string literal in the code under analysis
     raise Unknown('string value %r' % (v,))
 class HostObj:
     canon_fields = ('host', 'port')
     def __init__(self, host, port): self.host, self.port = host, port
     def model_drop(self, ex): pass
 class IpObj:
+    """std::net::IpAddr (an enum V4 | V6 over Ipv4Addr / Ipv6Addr): the real `connect()` body matches on it"""
     canon_fields = ('ip',)
     def __init__(self, ip): self.ip = ip
+    def model_drop(self, ex): pass
+    def v6(self): return ':' in self.ip
+    def model_discriminant(self): return 1 if self.v6() else 0
+    def model_downcast(self, variant):
+        if variant != ('V6' if self.v6() else 'V4'): raise Unknown('bad downcast of IpAddr %s as %s' % (self.ip, variant))
+        return Struct('IpAddr::' + variant, [IpObj(self.ip)])
+class SockObj:
+    canon_fields = ('v6', 'bound')
+    def __init__(self, v6): self.v6, self.bound = v6, None
     def model_drop(self, ex): pass
 class AddrObj:
     canon_fields = ('ip', 'port')
@@ -166,6 +176,27 @@ def m_join_poll(ex, a, t):
     n = {'list2': 2, 'list1': 1, 'empty': 0}[ans]
     w.resolved = [AddrObj('10.0.0.%d' % (k + 1), z3.BitVecVal(0, 16)) for k in range(n)]
     return Enum('Poll', 'Ready', [Enum('Result', 'Ok', [Enum('Result', 'Ok', [IterObj(list(w.resolved))])])])
+class CustomResolver:
+    canon_fields = ()
+    def model_drop(self, ex): pass
+class LookupFut:
+    canon_fields = ('done',)
+    def __init__(self, w): self.w, self.done = w, False
+    def model_drop(self, ex): pass
+    def poll(self, ex):
+        w = self.w
+        if self.done: raise Panic('custom lookup future polled after completion')
+        ans = w.answer('lookup', ['list2', 'list1', 'empty', 'err', 'p'])
+        if ans == 'p': return Enum('Poll', 'Pending')
+        self.done = True
+        if ans == 'err': return Enum('Poll', 'Ready', [Enum('Result', 'Err', [Opaque('custom resolver error')])])
+        n = {'list2': 2, 'list1': 1, 'empty': 0}[ans]
+        w.resolved = [AddrObj('10.0.0.%d' % (k + 1), z3.BitVecVal(7000 + k, 16)) for k in range(n)]
+        return Enum('Poll', 'Ready', [Enum('Result', 'Ok', [VecObj(list(w.resolved))])])
+def m_custom_lookup(ex, a, t):
+    # <dyn Resolve as Resolve>::lookup(&self, host: &str, port: u16): the scripted custom resolver logs its arguments
+    w = ex.connworld; w.lookups.append(FmtObj([StrObj(_str(a[1])), a[2]]))
+    return BoxObj(LookupFut(w))
 def m_connect(ex, a, t):
     w = ex.connworld; local = a[1]
     loc = local.f[0].v if isinstance(local, Enum) and local.variant == 'Some' else None
@@ -173,8 +204,41 @@ def m_connect(ex, a, t):
     return f
 def m_rbf_new(ex, a, t): return RbfObj(a[0])
 def m_rbf_set(ex, a, t): target(a[0]).fut = a[1]; return UNIT
+def m_sock_new(v6): return lambda ex, a, t: Enum('Result', 'Ok', [SockObj(v6)])
+def m_sockaddr_vx_new(ex, a, t): return AddrObj(a[0].ip, a[1])          # SocketAddrV4::new(ip, port) / SocketAddrV6::new(ip, port, flow, scope)
+def _addr_of(v):
+    while isinstance(v, Ref): v = v.lv.get()
+    if isinstance(v, Enum) and v.name == 'SocketAddr': v = v.f[0].v
+    return v
+def m_sock_bind(ex, a, t):
+    so = target(a[0]); addr = _addr_of(a[1])
+    if (':' in addr.ip) != so.v6: return Enum('Result', 'Err', [IoErr(Enum('ErrorKind', 'InvalidInput'))])     # the kernel rejects a v4 address on a v6 socket and vice versa
+    so.bound = addr; return Enum('Result', 'Ok', [UNIT])
+def m_sock_connect(ex, a, t):
+    w = ex.connworld; so = a[0]; addr = _addr_of(a[1])
+    loc = IpObj(so.bound.ip) if so.bound is not None else None
+    if loc is not None and ex.truth(so.bound.port != z3.BitVecVal(0, 16)): loc = IpObj(so.bound.ip + ':nonzero-port')
+    f = DialFut(w, addr, loc); w.dials.append((addr, loc)); w.dial_futs.append(f)
+    return f
+def m_stream_connect(ex, a, t):
+    w = ex.connworld; addr = _addr_of(a[0])
+    f = DialFut(w, addr, None); w.dials.append((addr, None)); w.dial_futs.append(f)
+    return f
+def m_dialfut_poll(ex, a, t):
+    f = a[0]
+    while isinstance(f, Ref): f = f.lv.get()
+    w = f.w
+    if f.done: raise Panic('connect future polled after completion')
+    ans = w.answer('dial', ['ok', 'err', 'p'])
+    if ans == 'p': return Enum('Poll', 'Pending')
+    f.done = True
+    if ans == 'ok': return Enum('Poll', 'Ready', [Enum('Result', 'Ok', [Struct('TcpStream', [f])])])
+    e = IoErr(Enum('ErrorKind', 'Other')); e.dial = f
+    return Enum('Poll', 'Ready', [Enum('Result', 'Err', [e])])
 def m_rbf_poll(ex, a, t):
-    f = target(a[0]).fut; w = f.w
+    f = target(a[0]).fut
+    if isinstance(f, CoroutineVal): return models.poll_coroutine(ex, f, a[1] if len(a) > 1 else None)      # the real `async fn connect` body
+    w = f.w
     if f.done: raise Panic('connect future polled after completion')
     ans = w.answer('dial', ['ok', 'err', 'p'])
     if ans == 'p': return Enum('Poll', 'Pending')
@@ -205,7 +269,7 @@ def m_opt_expect(ex, a, t):
 def m_server_name(ex, a, t):
     s = StrObj(_str(a[0]))
     w = ex.connworld
-    if w.name_valid or s.s.startswith('literal '): return Enum('Result', 'Ok', [StrObj(s.s)])
+    if w.name_valid: return Enum('Result', 'Ok', [StrObj(s.s)])
     return Enum('Result', 'Err', [Opaque('InvalidDnsNameError')])
 def m_tls_connector_connect(ex, a, t):
     w = ex.connworld; name = StrObj(_str(a[1]))
@@ -262,7 +326,9 @@ MODELS[:0] = [
     (r'^<VecDeque<.*> as FromIterator<.*>>::from_iter::<', m_vd_from_iter), (r'(?:^|::)VecDeque::<.*>::len$', m_vd_len), (r'^<VecDeque<.*> as IntoIterator>::into_iter$', m_vd_into_iter),
     (r'^Arguments::<.*>::new::<', m_args_new), (r'Argument::<.*>::new_display::<', m_arg_display), (r'^format$', m_format), (r'^must_use::<String>$', m_format),
     (r'^spawn_blocking::<', m_spawn_blocking), (r'^<actix_rt::task::JoinHandle<.*> as Future>::poll$', m_join_poll),
-    (r'^connect$', m_connect), (r'^ReusableBoxFuture::<.*>::new::<', m_rbf_new), (r'^ReusableBoxFuture::<.*>::set::<', m_rbf_set), (r'^ReusableBoxFuture::<.*>::poll$', m_rbf_poll),
+    (r'^<dyn Resolve as Resolve>::lookup$', m_custom_lookup), (r'^<Pin<Box<dyn Future<.*>>> as Future>::poll$', models.m_dyn_fut_poll), (r'as IntoFuture>::into_future$', srvmodels.m_identity), (r'^<Rc<dyn Resolve> as Deref>::deref$', lambda ex, a, t: target(a[0])),
+    (r'TcpSocket::new_v4$', m_sock_new(False)), (r'TcpSocket::new_v6$', m_sock_new(True)), (r'SocketAddrV[46]::new$', m_sockaddr_vx_new), (r'TcpSocket::bind$', m_sock_bind),
+    (r'TcpSocket::connect$', m_sock_connect), (r'(?:^|::)TcpStream::connect$', m_stream_connect), (r'^<(actix_rt::net::)?ConnectFut as Future>::poll$', m_dialfut_poll), (r'^ReusableBoxFuture::<.*>::new::<', m_rbf_new), (r'^ReusableBoxFuture::<.*>::set::<', m_rbf_set), (r'^ReusableBoxFuture::<.*>::poll$', m_rbf_poll),
     (r'TcpStream::peer_addr$', m_peer_addr), (r'^Poll::<Result<.*>>::map_ok::<', m_poll_map_ok), (r'^Box::<std::io::Error>::new$', m_box_err_new),
     (r'^<JoinError as Into<std::io::Error>>::into$', m_joinerr_into), (r'^Option::<.*>::and_then::<', m_opt_and_then), (r'^Option::<.*>::as_mut$', m_opt_as_mut),
     (r'^Option::<.*>::expect$', m_opt_expect), (r'^<ServerName<.*> as TryFrom<&str>>::try_from$', m_server_name), (r'^ServerName::<.*>::to_owned$', srvmodels.m_identity),
@@ -297,10 +363,12 @@ def body_connector(ctx):
         setport = z3.BitVec('set_port', 16) if ex.pick('setport', ['no', 'yes']) == 'yes' else None
         local = IpObj(ex.pick('local', ['none', '198.51.100.7', '2001:db8::7']))
         local = None if local.ip == 'none' else local
-        w.hist.append('host=%s hostport=%s preset=%d set_port=%s local=%s' % (host, hport, npre, setport is not None, local.ip if local else None))
+        rkind = ex.pick('resolver', ['default', 'custom'])
+        w.hist.append('host=%s hostport=%s preset=%d set_port=%s local=%s resolver=%s' % (host, hport, npre, setport is not None, local.ip if local else None, rkind))
         info = w.mk_info(host, hp, preset, setport, local)
         eff_port = hp if hp is not None else (setport if setport is not None else z3.BitVecVal(0, 16))
-        svc = Struct('ConnectorService', [Struct('TcpConnectorService', []), Struct('ResolverService', [Enum('ResolverKind', 'Default')])])
+        kind = Enum('ResolverKind', 'Default') if rkind == 'default' else Enum('ResolverKind', 'Custom', [CustomResolver()])
+        svc = Struct('ConnectorService', [Struct('TcpConnectorService', []), Struct('ResolverService', [kind])])
         order = ctx.structs['ConnectorService']
         if order != ['tcp', 'resolver']: raise core.Inconclusive('ConnectorService fields changed: %s' % order)
         fut = ex.run(ctx.CONN_CALL, [w.R(svc), info])
@@ -329,6 +397,7 @@ def body_connector(ctx):
                              what='lookup arguments %s' % [getattr(x, 's', x) for x in args])
             expected = [AddrObj(a_.ip, a_.port) for a_ in getattr(w, 'resolved', [])]
             acc.wit['c19_lookup'] += 1
+            if rkind == 'custom': acc.wit['c19_custom_resolver'] += 1
         lookup_ans = [h for h in w.hist if h.startswith('lookup=') and not h.endswith('=p')]
         la = lookup_ans[0].split('=')[1] if lookup_ans else None
         if la == 'empty':
@@ -365,6 +434,173 @@ def body_connector(ctx):
         if len(acc.samples) < 4: acc.samples.append(' '.join(w.hist))
         acc.states.add(tuple(w.hist))
     return body
+
+
+# ---------------------------------------------------------------- differential validation against the native driver
+class _NullAcc:
+    def __getattr__(self, k): raise AttributeError(k)
+
+def _port(v):
+    v = z3.simplify(v) if z3.is_expr(v) else v
+    return v.as_long() if z3.is_expr(v) else int(v)
+
+def conn_trace(ctx, case):
+    """engine S on one concrete case (same trace format as mount/actix-tls/src/bin/conndrv.rs)"""
+    ex = ctx.mk(); w = ConnWorld(ctx, ex, None)
+    w.script = [('err' if a == 'lerr' else a) for a in case['answers']]
+    hp = None if case['hport'] is None else z3.BitVecVal(case['hport'], 16)
+    npre = case['preset']
+    preset = [AddrObj('192.0.2.%d' % (k + 1), z3.BitVecVal(9000 + k, 16)) for k in range(npre)] if npre else None
+    setport = None if case['setport'] is None else z3.BitVecVal(case['setport'], 16)
+    local = IpObj(case['local']) if case['local'] else None
+    info = w.mk_info(case['host'], hp, preset, setport, local)
+    kind = Enum('ResolverKind', 'Default') if case['resolver'] == 'default' else Enum('ResolverKind', 'Custom', [CustomResolver()])
+    svc = Struct('ConnectorService', [Struct('TcpConnectorService', []), Struct('ResolverService', [kind])])
+    fut = ex.run(ctx.CONN_CALL, [w.R(svc), info])
+    try: res = poll_loop(w, ex, ctx.CONN_POLL, fut, max_polls=16)
+    except Abort: res = None
+    except Panic: return 'PANIC'
+    if res is None: r = 'res=pending'
+    elif res.variant == 'Ok':
+        st = _stream_of(ex, ctx, res.f[0].v); r = 'res=ok:%d' % _port(st.addr.port)
+    else:
+        e = res.f[0].v; r = 'res=err:' + e.variant
+        if e.variant == 'Io':
+            d = getattr(e.f[0].v, 'dial', None)
+            r += ':%d' % (100 + w.dial_futs.index(d) if d is not None else -1)
+    dials = ','.join('%s:%d@%s' % (d.ip, _port(d.port), loc.ip if loc is not None else '-') for d, loc in w.dials)
+    looks = ','.join('%s:%d' % (l.args[0].s, _port(l.args[1])) for l in w.lookups)
+    return '%s dials=[%s] lookups=[%s]' % (r, dials, looks)
+
+def conn_line(case):
+    o = lambda v: '-' if v is None else str(v)
+    return 'conn host=%s hport=%s preset=%d setport=%s local=%s resolver=%s | %s' % (case['host'], o(case['hport']), case['preset'], o(case['setport']), case['local'] or '-', case['resolver'], ' '.join(case['answers']))
+
+def tls_trace(ctx, host, answers):
+    ex = ctx.mk(); w = ConnWorld(ctx, ex, None)
+    w.script = list(answers); w.name_valid = (host == 'example.org') or ctx.flavour == 'openssl'
+    fobj = DialFut(w, AddrObj('192.0.2.1', z3.BitVecVal(4242, 16)), None)
+    stream = Struct('TcpStream', [fobj])
+    conn = ex.run(ctx.CONNECTION_NEW, [HostObj(host, None), stream])
+    fut = ex.run(ctx.TLS_CALL, [w.R(Struct('TlsConnectorService', [Opaque('client config')])), conn])
+    try: res = poll_loop(w, ex, ctx.TLS_POLL, fut, max_polls=16)
+    except Abort: res = None
+    if res is None: r = 'res=pending'
+    elif res.variant == 'Ok':
+        c = res.f[0].v; io = c.f[ctx.structs['Connection'].index('io')].v; req = c.f[ctx.structs['Connection'].index('req')].v
+        inner = io.io if isinstance(io, TlsConnectObj) else io.f[0].v
+        r = 'res=ok:%d:%s' % (_port(inner.f[0].v.addr.port), req.host)
+    else: r = 'res=err'
+    return '%s names=[%s]' % (r, ','.join(w.tls_names))
+
+def random_case(rnd):
+    host = rnd.choice(['example.org', '127.0.0.1', '::1', 'svc.internal'])
+    resolver = rnd.choice(['default', 'custom'])
+    npre = rnd.choice([0, 0, 1, 2, 3])
+    is_ip = host in ('127.0.0.1', '::1')
+    if resolver == 'default' and not is_ip and npre == 0: npre = rnd.choice([1, 2, 3])     # the default lookup is the real getaddrinfo natively: not scripted
+    ans = []
+    naddr = npre if npre else 1
+    if not npre and not is_ip:
+        ans += ['p'] * rnd.choice([0, 0, 1, 2]); la = rnd.choice(['list2', 'list2', 'list1', 'empty', 'lerr']); ans.append(la)
+        naddr = {'list2': 2, 'list1': 1}.get(la, 0)
+    for k in range(naddr):
+        ans += ['p'] * rnd.choice([0, 0, 1, 2]); o = rnd.choice(['ok', 'err', 'err']); ans.append(o)
+        if o == 'ok': break
+    return dict(host=host, hport=rnd.choice([None, None, 81, 8443]), preset=npre, setport=rnd.choice([None, None, 8080, 1]), local=rnd.choice([None, None, '198.51.100.7', '2001:db8::7']),
+                resolver=resolver, answers=ans)
+
+_NATIVE = {}
+def build_native():
+    if 'bin' in _NATIVE: return _NATIVE['bin']
+    d = os.path.join(core.VERIF, 'mount', 'actix-tls'); tgt = core.workdir('mount-target', 'actix-tls-native')
+    r = core.sh(['cargo', 'build', '--offline', '--release', '--features', 'drv', '--bin', 'conndrv', '--target-dir', tgt], cwd=d, timeout=900)
+    if r.returncode != 0: raise core.Inconclusive('native connector driver does not build (does /repo still compile?):\n' + r.stderr[-2000:])
+    _NATIVE['bin'] = os.path.join(tgt, 'release', 'conndrv'); return _NATIVE['bin']
+def run_native(lines):
+    r = core.sh([build_native()], input='\n'.join(lines) + '\n', timeout=300)
+    out = r.stdout.strip().split('\n')
+    if len(out) != len(lines): raise core.Inconclusive('native connector driver produced %d lines for %d cases: %s' % (len(out), len(lines), r.stderr[-500:]))
+    return out
+
+def differential(rep, ctx, octx, seed, n):
+    rnd = random.Random(seed); lines = []; want = []
+    for _ in range(n):
+        c = random_case(rnd); lines.append(conn_line(c)); want.append(conn_trace(ctx, c))
+    for fl, cx in (('rustls_0_23', ctx), ('openssl', octx)):
+        for host in ('example.org', 'bad name'):
+            for ans in (['ok'], ['p', 'ok'], ['p', 'p', 'err'], ['err']):
+                lines.append('tls flavour=%s host=%s | %s' % (fl, host.replace(' ', '+'), ' '.join(ans))); want.append(tls_trace(cx, host, ans))
+    nat = run_native(lines)
+    bad = [(l, a, b) for l, a, b in zip(lines, nat, want) if a.strip() != b.strip()]
+    rep.counters['traces_validated_against_impl'] += len(lines) - len(bad)
+    if bad: rep.inconc('differential validation mismatch (actix-tls connector): case %r native %r engine %r' % bad[0])
+    return not bad
+
+
+def judge_conn(case, trace):
+    """the property, evaluated on one native trace of the real connector (independent of engine S); returns the violated obligations"""
+    import re
+    m = re.match(r'res=(\S+) dials=\[(.*?)\] lookups=\[(.*?)\]$', trace.strip())
+    if not m: return ['C19/connector_never_panics'] if 'PANIC' in trace else ['unparsable native trace']
+    res = m.group(1); dials = [d for d in m.group(2).split(',') if d]; looks = [l for l in m.group(3).split(',') if l]
+    bad = []
+    eff = case['hport'] if case['hport'] is not None else (case['setport'] if case['setport'] is not None else 0)
+    is_ip = case['host'] in ('127.0.0.1', '::1')
+    ans = list(case['answers']); la = None
+    if case['preset']:
+        if looks: bad.append('C19/preresolved_request_is_never_re_resolved')
+        expected = ['192.0.2.%d:%d' % (k + 1, 9000 + k) for k in range(case['preset'])]
+    elif is_ip:
+        if looks: bad.append('C19/ip_literal_is_dialled_directly_without_lookup')
+        expected = ['%s:%d' % (case['host'], eff)]
+    else:
+        if len(looks) != 1: bad.append('C19/other_hosts_go_through_the_resolver_exactly_once')
+        elif looks[0] != '%s:%d' % (case['host'], eff): bad.append('C19/resolver_is_asked_for_hostname_and_request_port')
+        while ans and ans[0] == 'p': ans.pop(0)
+        la = ans.pop(0) if ans else 'list2'
+        expected = ['10.0.0.%d:%d' % (k + 1, 7000 + k) for k in range({'list2': 2, 'list1': 1}.get(la, 0))]
+        if la == 'empty': return bad + ([] if res == 'err:NoRecords' else ['C19/empty_answer_is_NoRecords'])
+        if la == 'lerr': return bad + ([] if res == 'err:Resolver' else ['C19/resolver_failure_is_Resolver_error'])
+    outcomes = [a for a in ans if a != 'p']
+    outcomes = outcomes[:len(expected)] + ['err'] * (len(expected) - len(outcomes))       # the native script answers `refused` once exhausted
+    first_ok = outcomes.index('ok') if 'ok' in outcomes else None
+    want = len(expected) if first_ok is None else first_ok + 1
+    loc = case['local'] or '-'
+    if [d.split('@')[0] for d in dials] != expected[:want]: bad.append('C19/addresses_are_dialled_in_order_until_the_first_success')
+    if any(d.split('@')[1] != loc for d in dials): bad.append('C19/local_bind_address_reaches_every_dial')
+    if first_ok is not None:
+        if res != 'ok:%s' % expected[first_ok].rsplit(':', 1)[1]: bad.append('C19/first_successful_connection_is_returned')
+    elif res != 'err:Io:%d' % (100 + len(expected) - 1): bad.append('C19/all_failed_is_the_last_io_error')
+    return bad
+
+def judge_tls(flavour, host, ans, trace):
+    import re
+    m = re.match(r'res=(\S+) names=\[(.*?)\]$', trace.strip())
+    if not m: return ['unparsable native trace']
+    res, names = m.group(1), [n for n in m.group(2).split(',') if n]
+    final = [a for a in ans if a != 'p'][0] if [a for a in ans if a != 'p'] else 'ok'
+    if host != 'example.org' and flavour != 'openssl':
+        return [] if (res == 'err' and not names) else ['C19/syntactically_invalid_server_name_is_an_error']
+    bad = []
+    if names != [host]: bad.append('C19/tls_handshake_is_for_the_requests_hostname')
+    if final == 'ok' and res != 'ok:4242:%s' % host: bad.append('C19/tls_success_wraps_the_same_stream')
+    if final == 'err' and res != 'err': bad.append('C19/tls_back_end_failure_is_propagated')
+    return bad
+
+def case_of_violation(v):
+    """concrete native case for a counterexample of the connector body; None if it runs through the default lookup (real getaddrinfo natively)"""
+    cfg = dict(x.split('=', 1) for x in v['hist'][0].split())
+    m = v['model']
+    host = cfg['host']; npre = int(cfg['preset'])
+    if cfg['resolver'] == 'default' and host not in ('127.0.0.1', '::1') and npre == 0: return None
+    ans = []
+    for h in v['hist'][1:]:
+        k, a = h.split('=', 1)
+        ans.append('lerr' if (k == 'lookup' and a == 'err') else a)
+    if any(a == 'joinerr' for a in ans): return None
+    return dict(host=host, hport=(int(m.get('host_port', 0)) if cfg['hostport'] == 'some' else None), preset=npre, setport=(int(m.get('set_port', 0)) if cfg['set_port'] == 'True' else None),
+                local=(None if cfg['local'] == 'None' else cfg['local']), resolver=cfg['resolver'], answers=ans)
 
 
 def _stream_of(ex, ctx, conn):
@@ -416,14 +652,15 @@ def body_tls(ctx):
 
 def run_c19(rep, tier, seed):
     rep.engines.add('mirsym (engine S) + z3 %s' % z3.get_version_string())
-    rep.models |= {'async fn connect(addr, local_addr) = scripted future logging its arguments (coroutine bodies are outside engine S)',
+    rep.models |= {'async fn connect(addr, local_addr) and the custom-resolver async block = the compiler\'s state-transformed coroutine MIR, executed with suspension; TcpSocket::{new_v4,new_v6,bind,connect} / TcpStream::connect = scripted dial logging address and bound local address',
                    'spawn_blocking / JoinHandle = scripted lookup (list of 2 / 1 / 0 addresses, lookup error, join error, Pending)',
                    'str::parse::<IpAddr> = Python ipaddress; format! = argument list', 'tokio_rustls::TlsConnector::connect = scripted handshake recording the server name', 'openssl ConnectConfiguration::into_ssl = records the host name; tokio_openssl::SslStream::poll_connect = scripted handshake',
                    'ServerName::try_from = valid / invalid chosen by the driver', 'ReusableBoxFuture = replaceable boxed future', 'VecDeque / Vec / Option / Poll::map_ok models'}
-    rep.assumptions += ['PARTIAL: the custom-resolver arm (an async block), Host for String/&str parsing, the connect() body (v4/v6 bind) and everything inside the TLS library (certificate validity, issuers, data integrity) are NOT covered',
-                        'this driver has no native differential validation (the scripted outcomes are not expressible through the real DNS / socket layer); its trust rests on the engine validated by the other drivers']
+    rep.assumptions += ['PARTIAL: Host for String/&str parsing, the default getaddrinfo lookup itself and everything inside the TLS library (certificate validity, issuers, data integrity) are NOT covered',
+                        'engine S is validated on every run against the real actix-tls connector compiled natively with scripted dial / lookup / handshake back ends (the default-lookup arm is excluded from that comparison: natively it is the real getaddrinfo)']
     ctx = ConnCtx(); octx = ConnCtx('openssl')
     t0 = time.time()
+    if not differential(rep, ctx, octx, seed, 150 if tier == 'quick' else 1500): return
     for label, body, ctx in (('connector', body_connector(ctx), ctx), ('tcp-unresolved', body_tcp_unresolved(ctx), ctx), ('tls-connector rustls-0.23', body_tls(ctx), ctx), ('tls-connector openssl', body_tls(octx), octx)):
         acc = explore(ctx.mk, body, seed=seed, seed_paths=200)
         rep.bounds[label] = {'paths': acc.paths}
@@ -431,7 +668,29 @@ def run_c19(rep, tier, seed):
         for key, v in sorted(acc.viol.items()):
             fkey = '%s: %s' % (v['obligation'], ' '.join(str(h) for h in v['hist'][:12]))
             path = core.write_replay('C19', fkey, {'obligation': v['obligation'], 'history': [str(h) for h in v['hist']], 'model': v['model'], 'what': v['what']})
-            # no native replay exists for this driver: a counterexample is reported as inconclusive unless it is purely structural
-            rep.violation(fkey, '%s -- %s; %s' % (v['obligation'], v['what'], v['hist']), replay=path, reproduced=True)
+            repro = True; nat = None
+            if label == 'connector':
+                case = case_of_violation(v)
+                if case is not None:
+                    # replay the solver's counterexample against the real connector (native build) and judge that trace independently
+                    nat = run_native([conn_line(case)])[0]; bad = judge_conn(case, nat)
+                    repro = bool(bad)
+                    path = core.write_replay('C19', fkey, {'obligation': v['obligation'], 'history': [str(h) for h in v['hist']], 'model': v['model'], 'what': v['what'], 'line': conn_line(case), 'case': case, 'native_trace': nat, 'native_verdict': bad})
+            elif label.startswith('tls-connector'):
+                host = v['hist'][0].split('=', 1)[1]; ans = [h.split('=')[1] for h in v['hist'][1:]]
+                line = 'tls flavour=%s host=%s | %s' % (ctx.flavour, host.replace(' ', '+'), ' '.join(ans))
+                nat = run_native([line])[0]; bad = judge_tls(ctx.flavour, host, ans, nat); repro = bool(bad)
+                path = core.write_replay('C19', fkey, {'obligation': v['obligation'], 'history': [str(h) for h in v['hist']], 'what': v['what'], 'line': line, 'tls': [ctx.flavour, host, ans], 'native_trace': nat, 'native_verdict': bad})
+            rep.violation(fkey, '%s -- %s; %s%s' % (v['obligation'], v['what'], v['hist'], ('; native trace: ' + nat) if nat else ' (default-lookup arm: no native replay, the counterexample is a path of the encoded MIR)'), replay=path, reproduced=repro)
     rep.bounds.update({'address_lists': '0..3 pre-set addresses, 0..2 resolved addresses', 'per_address_outcomes': 'Pending (budget 2) / ok / error, solver-chosen', 'ports': 'symbolic u16',
                        'hosts': 'plain name, IPv4 literal, IPv6 literal; with/without a port of its own', 'wall_s': round(time.time() - t0, 1)})
+
+
+def replay_file(path):
+    d = json.load(open(path))
+    if 'line' not in d: print('engine-only counterexample (default-lookup arm):', d.get('history')); return 1
+    nat = run_native([d['line']])[0]
+    print('case:', d['line']); print('native trace:', nat)
+    bad = judge_conn(d['case'], nat) if 'case' in d else judge_tls(d['tls'][0], d['tls'][1], d['tls'][2], nat)
+    print('violated:', bad)
+    return 1 if bad else 0
